@@ -10,8 +10,16 @@ id=$1; shift
 W=$ROOT/.work/$id.$$
 mkdir -p "$W" "$ROOT/evidence" "$ROOT/replays"
 trap 'rm -rf "$W"' EXIT
-cp /repo/go.sum "$ROOT/go.sum" 2>/dev/null
-if ! go build -o "$W/vf" ./cmd/vf 2>"$W/build.log"; then
+REPO=${VERIF_REPO:-/repo}
+MODFLAG=
+if [ "$REPO" != /repo ]; then
+  # run against a scratch copy of the repository (seeded changes): same module, replace redirected
+  sed "s#=> /repo#=> $REPO#" go.mod > "$W/go.mod"; cp "$REPO/go.sum" "$W/go.sum"
+  MODFLAG="-modfile=$W/go.mod"
+else
+  cp /repo/go.sum "$ROOT/go.sum" 2>/dev/null
+fi
+if ! go build $MODFLAG -o "$W/vf" ./cmd/vf 2>"$W/build.log"; then
   cat "$W/build.log" >&2
   echo "HARNESS-ERROR: build failed" >&2
   exit 2
@@ -21,8 +29,8 @@ export VF_WORK=$W
 build_instr() { # $1 = mode (env|sched), $2 = extra tags, $3 = output name, $4 = extra go flags
   local mode=$1 tags=$2 out=$3
   if ! go build -o "$W/instr" ./cmd/instr 2>"$W/instr.log"; then echo "instr build failed: $(head -c 400 "$W/instr.log")"; return 1; fi
-  if ! "$W/instr" -mode "$mode" -out "$W/ov-$mode" 2>"$W/instr-$mode.log"; then echo "instrumentation failed: $(head -c 400 "$W/instr-$mode.log")"; return 1; fi
-  if ! go build -tags "$tags" -overlay "$W/ov-$mode/overlay.json" -o "$W/$out" ./cmd/vf 2>"$W/build-$mode.log"; then echo "instrumented build failed: $(head -c 600 "$W/build-$mode.log" | tr '\n' ' ')"; return 1; fi
+  if ! "$W/instr" -src "$REPO/jsonschema" -mode "$mode" -out "$W/ov-$mode" 2>"$W/instr-$mode.log"; then echo "instrumentation failed: $(head -c 400 "$W/instr-$mode.log")"; return 1; fi
+  if ! go build $MODFLAG -tags "$tags" -overlay "$W/ov-$mode/overlay.json" -o "$W/$out" ./cmd/vf 2>"$W/build-$mode.log"; then echo "instrumented build failed: $(head -c 600 "$W/build-$mode.log" | tr '\n' ' ')"; return 1; fi
   return 0
 }
 case "$id" in
@@ -30,6 +38,6 @@ case "$id" in
     if msg=$(build_instr env verif vf-env); then export VF_ENV_BIN=$W/vf-env VF_ENV_REPORT=$W/ov-env/report.json; else export VF_ENV_BUILD_ERROR="$msg"; fi ;;
   C13)
     if msg=$(build_instr sched "verif sched" vf-sched); then export VF_SCHED_BIN=$W/vf-sched VF_SCHED_REPORT=$W/ov-sched/report.json; else export VF_SCHED_BUILD_ERROR="$msg"; fi
-    if go build -race -o "$W/vf-race" ./cmd/vf 2>"$W/build-race.log"; then export VF_RACE_BIN=$W/vf-race; else export VF_RACE_BUILD_ERROR="$(head -c 400 "$W/build-race.log")"; fi ;;
+    if go build $MODFLAG -race -o "$W/vf-race" ./cmd/vf 2>"$W/build-race.log"; then export VF_RACE_BIN=$W/vf-race; else export VF_RACE_BUILD_ERROR="$(head -c 400 "$W/build-race.log")"; fi ;;
 esac
 "$W/vf" "$id" "$@"
